@@ -259,3 +259,42 @@ void h_recoverlog(void) {
   }
   CANARY();
 }
+
+/* ------------------------------------------------------------------ db.bg
+ * ldb_background_call: the function the thread pool runs.  W2/W3 of C09: every
+ * state change a foreground thread may be waiting for (imm flushed, error
+ * latched, compaction finished, manual compaction done) is followed by a
+ * broadcast before the mutex is released, and pending work is rescheduled. */
+unsigned g_bgc_calls; unsigned long g_t_bgc, g_t_bcast, g_t_unlock_last;
+void c_background_compaction(ldb_t *db)
+__CPROVER_requires(db == g_db && g_held)
+/* caller obligation (E3): no compaction work after a latched error or once shutdown has begun */
+__CPROVER_requires(db->bg_error == LDB_OK && *(int *)&db->shutting_down == 0)
+__CPROVER_assigns(db->imm, db->has_imm, db->bg_error, db->manual_compaction, g_bgc_calls, g_needs_compaction, g_copied_pending, g_added_versions)
+__CPROVER_ensures(g_bgc_calls == __CPROVER_old(g_bgc_calls) + 1)
+;
+
+void h_bgcall(void) {
+  ldb_t *db = setup_db();
+  int shut, err0, sched;
+  unsigned b0;
+  g_held = 0; g_locks = 0; g_unlocks = 0; g_bgc_calls = 0;
+  __CPROVER_assume(db->background_compaction_scheduled == 1);   /* the pool runs us because we were scheduled */
+  __CPROVER_assume(g_needs_compaction == 0 || g_needs_compaction == 1);
+  shut = *(int *)&db->shutting_down != 0; err0 = db->bg_error;
+  b0 = g_broadcasts;
+
+  ldb_background_call(db);
+
+  CHECK(!g_held && g_locks == 1 && g_unlocks == 1, "background call: takes and releases the mutex exactly once");
+  CHECK(g_bgc_calls == ((!shut && err0 == LDB_OK) ? 1u : 0u), "E3: compaction work runs only without a latched error and not during shutdown");
+  CHECK(g_broadcasts >= b0 + 1, "W2: the background call always ends with a broadcast (waiters re-check imm / bg_error / level-0 count)");
+  sched = db->background_compaction_scheduled;
+  CHECK(sched == 0 || sched == 1, "scheduled flag is boolean");
+  /* I_db(c) at the moment the mutex is released */
+  CHECK(!((db->imm != NULL || db->manual_compaction != NULL || g_needs_compaction) && db->bg_error == LDB_OK && !shut) || (sched == 1 && g_sched_calls == 1),
+        "W3: if work remains (imm, manual compaction, or a level needs compaction) the call reschedules itself before releasing the mutex");
+  CHECK(!(sched == 1) || g_sched_calls == 1, "scheduled flag set only together with a pool submission");
+  CHECK(!(shut || db->bg_error != LDB_OK) || sched == 0, "nothing is scheduled during shutdown or after a latched error");
+  CANARY();
+}
